@@ -40,7 +40,7 @@ def _loops(f, i):
     return out
 
 
-def _c_canonical_loop(f, L):
+def _c_canonical_loop(f, L, allow_break=False):
     """C style `for (v = 0; v < B; v++)` with v declared outside: (decl id, rendered bound)"""
     n = f.nodes[L]
     if n.get("init", -1) < 0 or n.get("cond", -1) < 0 or n.get("inc", -1) < 0:
@@ -66,7 +66,7 @@ def _c_canonical_loop(f, L):
     iv = f.strip(inc["ch"][0]) if inc["k"] == "UnaryOperator" and inc["op"] == "++" else -1
     if iv < 0 or f.k(iv) != "DeclRefExpr" or f.nodes[iv]["decl"]["id"] != vid:
         return None
-    if any(f.k(x) in ("BreakStmt", "GotoStmt") for x in f.walk(n["body"])):
+    if not allow_break and any(f.k(x) in ("BreakStmt", "GotoStmt") for x in f.walk(n["body"])):
         return None
     return vid, f.alpha(c["ch"][1])[0].replace(" ", "")
 
